@@ -31,7 +31,9 @@ TECHNIQUE = "bounded exhaustive enumeration of calls executed in three execution
 LEVEL = "exploration"
 RULE = "complete catalogue; non-trivial = a numba kernel was actually entered with an edge-steering input (recorded per case by the catalogue)"
 ASSUMPTIONS = ["NUMBA_BOUNDSCHECK=1 and NUMBA_DISABLE_JIT=1 execute the same kernel source as the normal build",
-               "paths that cannot run interpreted (murmur-hashed LZ) are decided in bounds-checked mode only"]
+               "paths that cannot run interpreted (murmur-hashed LZ) are decided in bounds-checked mode only",
+               "an out-of-range access inside a prange body of a parallel kernel is reported reliably only by the interpreted mode: in bounds-checked "
+               "compiled mode the IndexError surfaces for the first failing call of a process, later ones as SystemError (counted) or not at all"]
 
 SCRATCH = os.path.join(core.VERIF, "scratch", "c10")
 PHASES = [["checked_I", "checked_B", "run_N"], ["compare_N"]]
@@ -255,6 +257,11 @@ def run_checked(case, mode):
         out = ("ok", canon(execute(case)))
     except (IndexError, UnboundLocalError, NameError) as e:
         out = ("oob", "%s: %s" % (type(e).__name__, e))
+    except SystemError as e:
+        # bounds-checked compiled mode: an IndexError raised inside a prange body of a parallel kernel surfaces only for
+        # the first failing call of a process; later ones arrive as SystemError("... returned a result with an exception
+        # set") or not at all (observed with the info-weight kernels).  Same class of observation.
+        out = ("oob", "SystemError: %s" % e) if mode == "B" else ("exc", "SystemError")
     except Exception as e:
         out = ("exc", type(e).__name__)
     _STORE.setdefault(mode, {})[idx] = out
